@@ -103,7 +103,8 @@ def make_config(rng, profile, tier):
             top = ['+', top, ['*', ['gascat', 1, rng.choice(ALTS)], ['var', 'x1']]]
     return {'sizes': sizes, 'cats': cats, 'top': top, 'helpers': helpers, 'nseg': nseg,
             'max_seg': rng.choice([1, 2, 5]), 'data_seed': rng.randrange(1 << 30),
-            'ctrl_style': rng.choice(['plain', 'plain', 'case']), 'seg_many': rng.random() < 0.4}
+            'ctrl_style': rng.choice(['plain', 'plain', 'case']), 'seg_many': rng.random() < 0.4,
+            'seg_ref': rng.random() < 0.4, 'names_as_iterator': rng.random() < 0.3}
 
 
 def make_ops(rng, cfg, profile, tier):
@@ -134,8 +135,10 @@ def make_ops(rng, cfg, profile, tier):
             ops.append({'op': 'CENTRAL_MAX', 'a': []})
         elif r < 0.93:
             ops.append({'op': 'LATE_ATTACH', 'a': [rng.randrange(3), [rng.randrange(3) for _ in range(rng.randrange(2, 6))]]})
-        elif r < 0.94:
+        elif r < 0.937:
             ops.append({'op': 'REUSE_PIECE', 'a': [rng.randrange(3), rng.randrange(2)]})
+        elif r < 0.94:
+            ops.append({'op': 'SHARED_WITH_CATALOG', 'a': [rng.randrange(4)]})
         else:
             ops.append({'op': 'BIOGEME', 'a': [rng.randrange(1 << 30)]})
     return ops
@@ -195,7 +198,9 @@ class Session:
                     else ['Cost', 'cost', 'COST', 'cOst'][:len(cfg['sizes'])])
         self.ctrl_names = list(self._cn)
         self.member_names = {self._cn[i]: [f'm{j}' for j in range(s)] for i, s in enumerate(cfg['sizes'])}
-        self.controllers = {nm: Controller(nm, self.member_names[nm]) for nm in self.ctrl_names}
+        # the names of the alternatives of a controller: a list, or any one-shot iterable (the signature says Iterable)
+        as_it = (lambda l_: iter(list(l_))) if cfg.get('names_as_iterator') else (lambda l_: l_)
+        self.controllers = {nm: Controller(nm, as_it(self.member_names[nm])) for nm in self.ctrl_names}
         self.catalogs = {}
         self.values = {'b0': 0.7, 'b1': -1.3, 'b2': 0.45}
         # helpers
@@ -205,7 +210,13 @@ class Session:
             self.segs.append(('s0', {1: 'low', 2: 'mid', 3: 'mid'} if cfg.get('seg_many') else {1: 'low', 2: 'mid', 3: 'high'}))
         if cfg['nseg'] >= 2:
             self.segs.append(('s1', {0: 'no', 1: 'yes'}))
-        self.seg_tuples = tuple(DiscreteSegmentationTuple(variable=v, mapping=m) for v, m in self.segs)
+        # reference category: the first one by default, or one named explicitly (buggify)
+        self.seg_refs = {}
+        for v_, m_ in self.segs:
+            cats_ = list(dict.fromkeys(m_.values()))
+            self.seg_refs[v_] = cats_[0] if not cfg.get('seg_ref') else cats_[-1]
+        self.seg_tuples = tuple(DiscreteSegmentationTuple(variable=v, mapping=m, reference=(self.seg_refs[v] if cfg.get('seg_ref') else None))
+                                for v, m in self.segs)
         # starting values of the coefficients handed to the helpers: everything the helpers derive from a coefficient
         # (alternative-specific versions, category-specific terms) starts at the coefficient's own starting value
         self.helper_starts = {'hb0': 0.3, 'hb1': -0.6}
@@ -240,7 +251,9 @@ class Session:
         for base in list(self.values):
             if base.startswith('hb'):
                 for v, m in self.segs:
-                    for key, cat in list(m.items())[1:]:
+                    for key, cat in m.items():
+                        if cat == self.seg_refs[v]:
+                            continue
                         self.values[f'{base}_{cat}'] = round(0.07 * key + 0.013 * len(base) + (0.2 if v == 's1' else 0), 4)
         self.expr = self._build(cfg['top'])
         self.used_ctrls = sorted(self._used(cfg['top'], set()))
@@ -335,7 +348,9 @@ class Session:
         terms = [['beta', pname]]
         for (v, m), keep in zip(self.segs, combo):
             if keep:
-                for key, cat in list(m.items())[1:]:
+                for key, cat in m.items():
+                    if cat == self.seg_refs[v]:
+                        continue        # the reference category has no term of its own
                     terms.append(['*', ['beta', f'{pname}_{cat}'], ['==', ['var', v], ['num', float(key)]]])
         if len(terms) == 1:
             return terms[0]
@@ -431,6 +446,42 @@ class Session:
                     ctx.fail('I16.refuse', f'a catalog listing the alternatives of controller {c} as {perm} (the controller has '
                                            f'{names}) was accepted')
                 ctx.log(kind, c)
+        elif kind == 'SHARED_WITH_CATALOG':
+            # two models on one table share parameter objects; the first model holds a catalog, the second one numbers the
+            # shared parameters differently; the first model goes on evaluating like the formula written by hand
+            import biogeme.biogeme as bio
+            import biogeme.expressions as ex
+            from biogeme.catalog import Catalog
+            from biogeme.parameters import Parameters
+            order = a[0]
+            sb = ex.Beta('swc_b', 0.1, None, None, 0)
+            sc = ex.Beta('swc_c', 0.2, None, None, 0)
+            sa = ex.Beta('swc_a', 0.3, None, None, 0)
+            x0 = ex.Variable('x0')
+            cat = Catalog.from_dict('swc_shape', {'lin': sb * x0, 'sq': sb * x0 * x0})
+            f1 = cat + sc
+            f2 = sa * 3.0 - sb * x0
+            v1 = {'swc_b': 0.75, 'swc_c': -1.5}
+
+            def obj(f):
+                p = Parameters()
+                p.set_value('save_iterations', False)
+                return bio.BIOGEME(self.db, {'p': f}, parameters=p)
+            # (the configuration is chosen BEFORE the object is built: an existing object is a snapshot of its formulas, the
+            # engine keeps the nodes it has seen - changing the selection afterwards is what from_configuration is for)
+            sel_, pw_ = (('lin', 1), ('sq', 2))[order % 2]
+            f1.configure_catalogs(Configuration.from_string(f'swc_shape:{sel_}'))
+            b1 = obj(f1)
+            obj(f2)
+            for round_ in (1, 2):
+                got = [float(v) for v in b1.simulate({k_: v1[k_] for k_ in sorted(v1, reverse=bool(order >= 2))})['p'].to_list()]
+                for g_, r_ in zip(got, self.rows):
+                    w_ = v1['swc_b'] * r_['x0'] ** pw_ + v1['swc_c']
+                    if not ref.close(g_, w_, 1e-12, 1e-13):
+                        ctx.fail('I16.value', f'model with a catalog (swc_shape:{sel_}) simulated after a second model sharing one of '
+                                              f'its parameters was built: {g_!r}, written by hand {w_!r}')
+            ctx.probe('model with a catalog sharing a parameter with another model')
+            ctx.log(kind, order)
         elif kind == 'REUSE_PIECE':
             # a formula with two catalogs (two controllers) is enumerated and configured; one of its catalogs is then reused
             # in a second formula that has nothing to do with the other controller: the second formula has the
